@@ -109,6 +109,8 @@ public:
 #ifdef PARMCB_INVARIANTS_CHECK
          assert( p >= t );
  #endif
+        if (p == t)
+            return true;
         if (p % 2 == 0)
             return false;
         T zero = T(0);
